@@ -355,7 +355,14 @@ func (ev *evaluator) eval(e Expr) *Val {
 			s := specSort(q.Type)
 			n := sym("q_" + q.Name)
 			decl = append(decl, "("+n+" "+s+")")
-			nb[q.Name] = &Val{S: s, Tm: n}
+			qv := &Val{S: s, Tm: n}
+			if strings.HasPrefix(q.Type, "*") {
+				qv.T = ev.resolveType(q.Type)
+				if qv.T == nil {
+					return ev.fail("quantifier: unknown type %s", q.Type)
+				}
+			}
+			nb[q.Name] = qv
 			switch q.Type {
 			case "uint64":
 				guards = append(guards, "(and (<= 0 "+n+") (<= "+n+" 18446744073709551615))")
@@ -519,8 +526,14 @@ func (ev *evaluator) call(x ECall) *Val {
 		case SInt:
 			if a.T != nil {
 				if _, ok := a.T.Underlying().(*types.Map); ok {
-					_, _, _, _, lk, _, _ := mapHeap(a.T)
-					return intVal(ite(eq(a.Tm, "0"), "0", sel(st.heapGet(lk, "(Array Int Int)"), a.Tm)))
+					dk, das, _, _, lk, ks, _ := mapHeap(a.T)
+					l := sel(st.heapGet(lk, "(Array Int Int)"), a.Tm)
+					if ev.bound == nil && ks != "" {
+						dom := st.fresh("dom", "(Array "+ks+" Bool)")
+						st.assume(eq(dom, sel(st.heapGet(dk, das), a.Tm)))
+						st.assume("(and (>= " + l + " 0) (forall ((mk " + ks + ")) (! (=> (select " + dom + " mk) (>= " + l + " 1)) :pattern ((select " + dom + " mk)))))")
+					}
+					return intVal(ite(eq(a.Tm, "0"), "0", l))
 				}
 			}
 		}
@@ -580,6 +593,9 @@ func (ev *evaluator) call(x ECall) *Val {
 	case "rheld":
 		m := ev.eval(x.Args[0])
 		return boolVal("(> " + sel(st.heapGet("L:r", "(Array Int Int)"), ev.addrOf(m)) + " 0)")
+	case "closed": // closed(ch): close(ch) has been executed
+		c := ev.eval(x.Args[0])
+		return boolVal(sel(st.heapGet("CH:closed", "(Array Int Bool)"), c.Tm))
 	case "rcount":
 		m := ev.eval(x.Args[0])
 		return intVal(sel(st.heapGet("L:r", "(Array Int Int)"), ev.addrOf(m)))
